@@ -197,6 +197,9 @@ fn key_pool() -> Vec<String> {
         "ключ".into(), "键".into(), "🔑key".into(), "é".into(), "e\u{301}".into(), "ÿ".into(), "\u{7f}".into(), "\u{80}".into(), "\u{ff}\u{ff}".into(),
         "h[ae]llo".into(), "hello".into(), "hallo".into(), "star*".into(), "q?".into(), "tags".into(), "kags".into()];
     for i in 0..32 { ks.push(format!("k{}", i)); }
+    // names with structure a router might be tempted to interpret (cluster hash tags, separators, prefixes of each other): a key is routed
+    // by ALL its bytes on every path
+    for k in ["{user1}:profile", "{user1}:cart", "{user2}:cart", "a{b}c", "{}", "x{}y", "{open", "close}", "{{a}}", "{a}{b}", "user1", "b", "ns:{t}:1", "ns:{t}:2", "k1:sub", "k1 ", " k1"] { ks.push(k.into()); }
     for i in 0..10 { ks.push(format!("user:{}", i)); }
     for c in ['a', 'b', 'c', 'd', 'e', 'f'] { ks.push(format!("item:{}", c)); }
     ks.push("L".repeat(300));
